@@ -18,6 +18,8 @@ import (
 
 const (
 	EncodingDeflate = "urn:oasis:names:tc:SAML:2.0:bindings:URL-Encoding:DEFLATE"
+	// maxInflatedSize limits the size of a message after decompression, same as net/http limits form bodies
+	maxInflatedSize = 10 << 20
 )
 
 func Marshal(data interface{}) ([]byte, error) {
@@ -154,7 +156,15 @@ func InflateAndDecode(encoding string, b64 bool, message string) (_ []byte, err 
 	case EncodingDeflate:
 		r := flate.NewReader(bytes.NewBuffer(data))
 		defer r.Close()
-		return io.ReadAll(r)
+		// never inflate more than a message can reasonably have, whatever the compression ratio is
+		inflated, err := io.ReadAll(io.LimitReader(r, maxInflatedSize+1))
+		if err != nil {
+			return nil, err
+		}
+		if len(inflated) > maxInflatedSize {
+			return nil, fmt.Errorf("inflated message is bigger than %d bytes", maxInflatedSize)
+		}
+		return inflated, nil
 	default:
 		return nil, fmt.Errorf("unknown encoding")
 	}
